@@ -19,6 +19,8 @@ def run(ctx):
         ("flush2op", dict(NReq=2, Kinds={"Attach", "Stat", "Flush"}, Late=True, HasFlushOp=True, InitFids={1}, Fids={1, 2})),
         ("flushwalk", dict(NReq=2, Kinds={"Walk", "Flush"}, Late=False, InitFids={1}, Fids={1, 2})),
     ]
+    # the target still QUEUED behind an older request of its tag (tag groups): flush of the newest member
+    exh.append(("flushq", dict(NReq=3, Tags={1, 2}, Kinds={"Stat", "Flush"}, SharedTags=True, Late=False, InitFids={1})))
     if not q:
         exh += [
             ("flush3", dict(NReq=3, Tags={1, 2, 3}, Kinds={"Stat", "Flush"}, Late=False, InitFids={1})),  # flush of a flush, two flushes of one request
@@ -26,7 +28,7 @@ def run(ctx):
         ]
     for name, over in exh:
         c = srvfam.consts(ctx, **over)
-        ctx.write_cfg("c07_%s.cfg" % name, c, invariants=INVS)
+        ctx.write_cfg("c07_%s.cfg" % name, c, invariants=INVS + (["TagGroupFIFO", "NoQueuedForever"] if over.get("SharedTags") else []))
         r = ctx.tlc_must_pass("Srv9P", "c07_%s.cfg" % name, timeout=2400, name=name)
         states += r.distinct
         trans += r.generated
@@ -61,17 +63,33 @@ def run(ctx):
         tour_paths += len(paths)
         tour_cov += cov
         tour_total += total
+    # 2b. random walks of the queued-target model (too large for a tour), replayed the same way
+    cq = srvfam.consts(ctx, NReq=3, Tags={1, 2}, Kinds={"Stat", "Flush"}, SharedTags=True, Late=False, InitFids={1})
+    sims, rs = srvfam.behaviours_sim(ctx, cq, "flushq", num=400 if q else 4000, depth=60)
+    srep, stp, sep, sbp = srvfam.replay(ctx, sims, cq, "flushq-sim", id_base=50000)
+    rj, tl = srvfam.run_trace_validation(ctx, stp, cq, name="Srv9PTrace:flushq-sim")
+    vd, el = srvfam.run_monitor(ctx, sep, name="Mon9P:flushq-sim")
+    srvfam.report_verdicts(ctx, vd, PROPS, sbp, cq, "TestReplay")
+    rejects += rj
+    verdicts += vd
+    tlines += tl
+    elines += el
+    traces += srep.get("cases_total", 0)
     # 3. code -> spec: flush-heavy random sessions, with fid probes after quiescence (CancelLeavesNothing)
     runs = [dict(nreq=6, cases=120 if q else 1200, op=False), dict(nreq=6, cases=120 if q else 1200, op=True)]
     # one long delay per case: a request's goroutine stays parked at one action (every hook in turn) while the session goes on
     runs += [dict(nreq=4, cases=360 if q else 3600, op=False, hold=True), dict(nreq=4, cases=360 if q else 3600, op=True, hold=True)]
+    # requests issued under a tag that is still outstanding (tag groups), flushed
+    runs += [dict(nreq=6, cases=150 if q else 1500, op=False, shared=True)]
     if not q:
         runs += [dict(nreq=14, cases=400, op=False), dict(nreq=14, cases=400, op=True)]
     for i, rr in enumerate(runs):
         cr = srvfam.consts(ctx, NReq=rr["nreq"], Tags=set(range(1, rr["nreq"] + 1)), Fids={1, 2, 3}, HasFlushOp=rr["op"],
-                           Kinds={"Attach", "Stat", "Clunk", "Walk", "Flush"}, Extra=False, Late=True, InitFids={1})
+                           Kinds={"Attach", "Stat", "Clunk", "Walk", "Flush"}, Extra=False, Late=True, InitFids={1},
+                           SharedTags=bool(rr.get("shared")))
         rc = {"cases": rr["cases"], "nreq": rr["nreq"], "kinds": ["Attach", "Stat", "Clunk", "Walk", "Flush", "Flush", "Flush"],
-              "shared": False, "close": False, "extra": False, "latep": 20, "sendp": 40, "probe": True, "hold": rr.get("hold", False)}
+              "shared": bool(rr.get("shared")), "close": False, "extra": False, "latep": 20, "sendp": 40, "probe": not rr.get("shared"),
+              "hold": rr.get("hold", False)}
         tag = "frand%d" % i
         rrep, tpath, epath, bpath = srvfam.random_run(ctx, cr, rc, tag, 300000 + 20000 * i)
         rj, tl = srvfam.run_trace_validation(ctx, tpath, cr, name="Srv9PTrace:" + tag)
